@@ -630,7 +630,7 @@ func genConfig(rt *rapid.T, small bool) Config {
 		c.Writer = "yields"
 	}
 	c.Big = prop == "C10" && rapid.IntRange(0, 15).Draw(rt, "big") == 0
-	c.Early = (prop == "C11" || prop == "C12") && rapid.Bool().Draw(rt, "early")
+	c.Early = rapid.Bool().Draw(rt, "early") // for C10 too: Close racing the consumer must not change what is delivered, or how
 	c.NilAlert = rapid.IntRange(0, 7).Draw(rt, "nilalert") == 0
 	c.BigCap = prop == "C10" && rapid.IntRange(0, 5).Draw(rt, "bigcap") == 0
 	if c.Writer != "blocks" && rapid.IntRange(0, 3).Draw(rt, "errs") == 0 {
@@ -716,6 +716,12 @@ func dfsConfigs() []struct {
 			c := out[i]
 			c.Cfg.Early = true
 			out = append(out, c)
+		}
+	}
+	if prop == "C10" {
+		// Close while the consumer is inside the wrapped writer: still one delivery at a time, in order, once
+		for _, poller := range []bool{false, true} {
+			out = append(out, cb{Config{P: 1, W: 2, Size: 2, Poller: poller, Writer: "yields", Early: true}, 2}, cb{Config{P: 2, W: 1, Size: 2, Poller: poller, Writer: "yields", Early: true}, 2})
 		}
 	}
 	if prop == "C10" {
